@@ -28,7 +28,7 @@ MEM_LIMIT_GB = 6
 
 DY_OPS = ["+", "-", "*", "%", "&", "|", ",", "=", "<", ">"]
 DY_VERBS = [("op", o) for o in DY_OPS] + [("lam", "{x%sy}" % o) for o in DY_OPS] + \
-           [("lam", "{y-x}"), ("lam", "{y%x}"), ("lam", "{y,x}"), ("lam", "{(2*x)+y}"), ("lam", "{x,,y}"), ("name", "dsub"), ("name", "hproj2"), ("py", "pf2")]
+           [("lam", "{y-x}"), ("lam", "{y%x}"), ("lam", "{y,x}"), ("lam", "{(2*x)+y}"), ("lam", "{x,,y}"), ("lam", "{(#x),#y}"), ("lam", "{y}"), ("lam", "{x}"), ("name", "dsub"), ("name", "hproj2"), ("py", "pf2")]
 MO_VERBS = [("op", "-"), ("op", "#"), ("op", "|"), ("op", ","), ("op", "*"), ("op", "_"), ("op", "~"), ("lam", "{x*2}"), ("lam", "{x,x}"), ("lam", "{-x}"), ("lam", "{#x}"),
             ("name", "hproj1"), ("py", "pf1")]
 CONV_VERBS = [("lam", "{_x%2}"), ("lam", "{x&5}"), ("op", "_"), ("lam", "{,/x}"), ("lam", "{x|3}"), ("op", "|")]
@@ -141,6 +141,12 @@ def _norm(c):
         return ["L", [_norm(x) for x in c[1]]]
     if c[0] == "D":
         return ["D", [[_norm(a), _norm(b)] for a, b in c[1]]]
+    return c
+
+
+def _join_chars(c):
+    if c[0] == "L" and c[1] and all(x[0] == "S" and len(x[1]) == 1 for x in c[1]):
+        return ["S", "".join(x[1] for x in c[1])]
     return c
 
 
@@ -308,6 +314,8 @@ def run_case(ctx, case):
     res["nontrivial"] = True
     cnt["adv:" + adv] = 1
     vfam = v[0] if v[0] != "op" else "operator"
+    if v[0] == "lam" and "#" in v[1]:
+        vfam = "lam:size"          # a verb that tells a character (size = its code) from a one-character string (size 1)
     sigbase = "%s|%s|%s" % (adv if adv != "chain" else "chain:%s+%s" % (case["a1"], case["a2"]), vfam + ((":" + v[1]) if v[0] == "op" else ""), shape_class(a))
     multiset = isinstance(want, tuple) and want[0] == "multiset"
     if r[0] != "ok":
@@ -321,6 +329,9 @@ def run_case(ctx, case):
             res["violations"].append({"sig": sigbase + "|dict-visit", "what": "%s returned %s; expansion visits %s" % (text, brief(got), wl), "detail": res["show"]})
         return res
     wc = _norm(canon(want))
+    if adv == "each2" and (a[0] == "S" or case["l"][0] == "S"):
+        # whether the pairwise results of a string and a list are joined into a string again is not specified
+        got, wc = _join_chars(got), _join_chars(wc)
     d = same(got, wc, "match")
     if d:
         res["show"]["got"], res["show"]["expansion"] = brief(got), brief(wc)
